@@ -23,9 +23,10 @@ pub struct Quirks {
     /// A rooted leading tree wildcard (`/**/x`) accepts any text after the root (`/.*`),
     /// including partial components.
     pub rooted_leading_tree_is_dotstar: bool,
-    /// A tree wildcard at the edge of a nested branch is encoded from the position of the
-    /// outermost branch only: any tree-wildcard text reading is accepted.
-    pub nested_tree_any_reading: bool,
+    /// A tree wildcard at the edge of the body of a repetition that can iterate more than once is
+    /// encoded as if every iteration were at the edge of the expression: any edge form is accepted
+    /// in every iteration.
+    pub rep_edge_tree_any_form: bool,
 }
 
 #[derive(Debug)]
@@ -63,14 +64,26 @@ pub struct StaticInfo {
     /// Token ids of tree wildcards with an absorbed leading separator that are the first token of
     /// the whole expression (through first positions of nested branches): they root the glob.
     pub rooting_first: BTreeSet<usize>,
+    /// Token ids of tree wildcards that are the last token of the whole expression (through last
+    /// positions of nested branches): the end of the path may stand in for their trailing
+    /// separator.
+    pub static_last: BTreeSet<usize>,
+    /// Token ids of tree wildcards that are the first token of the whole expression.
+    pub static_first: BTreeSet<usize>,
+    /// Token ids of tree wildcards at the first or last position (through nested branches) of the
+    /// body of a repetition that can iterate more than once.
+    pub rep_edge: BTreeSet<usize>,
 }
 
 pub fn static_info(ast: &Ast) -> StaticInfo {
     fn go(seq: &Seq, info: &mut StaticInfo) {
         if let Some(t) = seq.toks.first() {
             match &t.node {
-                Node::Tree { lead: true, .. } => {
-                    info.rooting_first.insert(t.id);
+                Node::Tree { lead, .. } => {
+                    info.static_first.insert(t.id);
+                    if *lead {
+                        info.rooting_first.insert(t.id);
+                    }
                 },
                 Node::Alt(bs) => {
                     for b in bs {
@@ -82,8 +95,50 @@ pub fn static_info(ast: &Ast) -> StaticInfo {
             }
         }
     }
+    fn last(seq: &Seq, info: &mut StaticInfo) {
+        if let Some(t) = seq.toks.last() {
+            match &t.node {
+                Node::Tree { .. } => {
+                    info.static_last.insert(t.id);
+                },
+                Node::Alt(bs) => {
+                    for b in bs {
+                        last(b, info);
+                    }
+                },
+                Node::Rep { body, .. } => last(body, info),
+                _ => {},
+            }
+        }
+    }
+    fn edge(seq: &Seq, first: bool, info: &mut StaticInfo) {
+        let t = if first { seq.toks.first() } else { seq.toks.last() };
+        if let Some(t) = t {
+            match &t.node {
+                Node::Tree { .. } => {
+                    info.rep_edge.insert(t.id);
+                },
+                Node::Alt(bs) => {
+                    for b in bs {
+                        edge(b, first, info);
+                    }
+                },
+                Node::Rep { body, .. } => edge(body, first, info),
+                _ => {},
+            }
+        }
+    }
     let mut info = StaticInfo::default();
     go(&ast.seq, &mut info);
+    last(&ast.seq, &mut info);
+    ast.seq.walk(&mut |t, _| {
+        if let Node::Rep { body, hi, .. } = &t.node {
+            if *hi != Some(1) {
+                edge(body, true, &mut info);
+                edge(body, false, &mut info);
+            }
+        }
+    });
     info
 }
 
@@ -146,11 +201,38 @@ impl<'a> Matcher<'a> {
         let n = self.p.len();
         let t = &self.p[i..j];
         let rooting = lead && i == 0 && self.info.rooting_first.contains(&tok.id);
+        let last = self.info.static_last.contains(&tok.id);
+        if self.mode == Mode::May && self.quirks.rep_edge_tree_any_form && self.info.rep_edge.contains(&tok.id) {
+            if t.is_empty() || t[0] == '/' || *t.last().unwrap() == '/' {
+                return true;
+            }
+        }
+        if last && trail && (j == n || self.mode == Mode::Must) {
+            // `a/**/` at the very end: whether the trailing separator is required or the end of
+            // the path may delimit the last component is open.
+            return match self.mode {
+                Mode::Must => false,
+                Mode::May => {
+                    if !lead {
+                        true
+                    }
+                    else if rooting {
+                        !t.is_empty() && t[0] == '/'
+                    }
+                    else {
+                        t.is_empty() || t[0] == '/'
+                    }
+                },
+            };
+        }
         match self.mode {
             Mode::Must => match (lead, trail) {
                 (true, true) => !t.is_empty() && t[0] == '/' && strict_components_then_sep(&t[1..]),
                 (false, true) => {
-                    strict_components_then_sep(t) && (i == 0 || self.p[i - 1] == '/')
+                    // Open on the left: only certain when it begins the whole expression.
+                    self.info.static_first.contains(&tok.id)
+                        && strict_components_then_sep(t)
+                        && i == 0
                 },
                 (true, false) => {
                     if rooting {
@@ -158,15 +240,13 @@ impl<'a> Matcher<'a> {
                         (t.len() == 1 && t[0] == '/') || (!t.is_empty() && strict_sep_then_components(t))
                     }
                     else {
-                        strict_sep_then_components(t) && (j == n || self.p[j] == '/')
+                        // Open on the right: only certain when it ends the whole expression.
+                        last && strict_sep_then_components(t) && j == n
                     }
                 },
                 (false, false) => true,
             },
             Mode::May => {
-                if self.quirks.nested_tree_any_reading {
-                    let _ = tok;
-                }
                 match (lead, trail) {
                     (true, true) => {
                         if rooting && self.quirks.rooted_leading_tree_is_dotstar {
